@@ -160,3 +160,27 @@ CHECKS["C12"] = {
     "technique": "deterministic simulation of caller threads (real threads, one runs at a time, seeded scheduler with pre-emption at instrumented memory accesses) with a happens-before race detector and a run-alone reference for every call",
     "determinism_runs": 1500, "exec_timeout": 120, "batch_timeout": 600, "minimise_s": 60,
 }
+
+CHECKS["C13"] = {
+    "id": "C13", "engine": "simgomp+sched+race", "flavour": "omp", "binary": "build/omp/c13", "level": "exploration",
+    "tiers": {"quick": {"runs": 20000, "batch": 100, "wall_cap": 300}, "thorough": {"runs": 600000, "batch": 200, "wall_cap": 2400}},
+    "rule": "one case = a seeded grid configuration (all five families and all rule kinds incl. optimised sequences and custom tables, 1-3 dims, 0-2 outputs, transforms, limits) + a scripted history of 0-7 operations "
+            "(load, refinement by all strategies, update, merge, clear, coefficients, dynamic construction, copies, transforms) with an observation after every step + extra parallel paths (sparse/dense hierarchical functions, "
+            "anisotropic coefficients, polynomial space, weights) + optionally a ParticleSwarm run; executed once by the serial reference build and once by the OpenMP build under the simulated libgomp with a seeded team size "
+            "(1,2,3,4,8), chunk hand-out order of dynamic loops, critical-section order and thread interleaving incl. pre-emption at instrumented memory accesses; distinct = distinct (history shape, team size); "
+            "distinct_interleavings = distinct hashes of the synchronisation-event sequence (fork, chunk requests, criticals, barriers, joins)",
+    "components": {"real": ["the whole library compiled with -fopenmp: every '#pragma omp' region incl. the _OPENMP-only branches (never compiled by the pinned build)", "the same library compiled without OpenMP (reference; namespaces renamed to share the executable)"],
+                   "simulated": ["libgomp: GOMP_parallel, GOMP_barrier, GOMP_critical(_name)_start/end, GOMP_loop_nonmonotonic_dynamic_start/next, GOMP_loop_end(_nowait), omp_get_thread_num/num_threads implemented over the seeded scheduler (team members are real threads of which one runs at a time)",
+                                 "happens-before race detector over every instrumented access with fork/join, barrier, critical and atomic edges"],
+                   "stub": ["libgomp is not linked"]},
+    "expect_probes": ["sim.parallel_regions", "sim.dynamic_chunks", "fault.preemption_at_memory_access", "fault.chunks_handed_out_in_seeded_order", "fault.team_size.8", "fault.team_size.1"],
+    "assumptions": ["stored data, point sets and orders, index arrays: bit-for-bit; derived numerics to 1e-11 relative to the section's scale (bit-identity is recorded as a statistic)",
+                    "chunks of schedule(dynamic) loops may be handed out in any order (legal for nonmonotonic dynamic schedules, which is what gcc emits); half of the runs use ascending hand-out",
+                    "nested parallel regions run with a team of one (libgomp's default)"],
+    "level_text": "seeded exploration of OpenMP executions (team size, chunk hand-out, critical-section order, interleavings with pre-emption at memory accesses) of scripted histories under a simulated libgomp, compared with the serial "
+                  "reference build step by step (structure exact, numerics to rounding), with a happens-before race detector inside every parallel region and deadlock detection",
+    "level_note": "samples histories and schedules; a clean batch is evidence, not proof. Race detection is happens-before based (a missing critical or a shared scratch buffer is reported in any schedule that executes both accesses). "
+                  "Trusted: the simulated libgomp (sim/simrt_gomp.inc) implements the OpenMP semantics of the constructs the library uses",
+    "technique": "deterministic simulation of the OpenMP runtime (own libgomp ABI over a seeded scheduler of real threads, one running at a time) with a happens-before race detector, checked step by step against the serial build of the same history",
+    "determinism_runs": 600, "exec_timeout": 300, "batch_timeout": 900, "minimise_s": 120,
+}
